@@ -33,8 +33,9 @@ VERIF = Path(__file__).resolve().parent.parent
 LEAN = VERIF / "lean"
 GEN = LEAN / "PynencModel" / "Gen"
 REPO = Path(os.environ.get("PYNENC_REPO", "/repo"))
-EVIDENCE = VERIF / "evidence"
-REPLAYS = VERIF / "replays"
+# checks run against a seeded/scratch tree (tools/seed_eval.py, tools/mutant_run.sh) write their evidence and replays elsewhere
+EVIDENCE = Path(os.environ.get("VERIF_EVIDENCE_DIR") or VERIF / "evidence")
+REPLAYS = Path(os.environ.get("VERIF_REPLAY_DIR") or VERIF / "replays")
 KNOWN = VERIF / "known_findings.json"
 DRIVER = LEAN / ".lake" / "build" / "bin" / "pynmodel"
 STD_AXIOMS = {"propext", "Classical.choice", "Quot.sound"}
@@ -368,9 +369,9 @@ class Ctx:
             "wall_s": round(wall, 2),
             "violations": len(self.violations) + (1 if self.broken and not self.violations else 0),
         }
-        if self.cov.get("discharged", 0) == 0:
-            # nothing checked (e.g. the Lean build broke on regenerated data): the proof-level keys would be
-            # invalid (discharged >= 1 is required); report through the generic coverage keys instead
+        if self.cov.get("discharged", 0) != self.cov.get("obligations", 0) or self.cov.get("discharged", 0) == 0:
+            # an obligation failed or nothing was checked (e.g. the Lean build broke on regenerated data): this run is no
+            # proof-level record (discharged must equal obligations and be >= 1); report through the generic coverage keys
             self.cov["obligations_total"] = self.cov.pop("obligations")
             self.cov["obligations_discharged"] = self.cov.pop("discharged")
             self.cov["evaluations"] = max(self.cov.get("evaluations", 0), 1)
@@ -379,7 +380,7 @@ class Ctx:
             ev["coverage"]["notes"] = self.notes
         ev["coverage"]["known_findings_reproduced"] = [k["signature"] for k, _ in self.known_hit]
         ev["coverage"]["broken_obligations"] = self.broken[:20]
-        EVIDENCE.mkdir(exist_ok=True)
+        EVIDENCE.mkdir(parents=True, exist_ok=True)
         problems = validate_evidence(ev)
         (EVIDENCE / f"{self.prop}.json").write_text(json.dumps(ev, indent=1, default=str))
         for k, what in self.known_hit:
@@ -387,7 +388,7 @@ class Ctx:
         # known findings that did NOT reproduce are only noted (a fixed defect is no alarm)
         rc = 0
         if self.violations:
-            REPLAYS.mkdir(exist_ok=True)
+            REPLAYS.mkdir(parents=True, exist_ok=True)
             for v in self.violations:
                 h = hashlib.sha1(v["signature"].encode()).hexdigest()[:10]
                 path = REPLAYS / f"{self.prop}-{h}.json"
@@ -400,7 +401,7 @@ class Ctx:
                 print(f"  {v['what']}")
             rc = 1
         elif self.broken:
-            REPLAYS.mkdir(exist_ok=True)
+            REPLAYS.mkdir(parents=True, exist_ok=True)
             h = hashlib.sha1("\n".join(self.broken).encode()).hexdigest()[:10]
             path = REPLAYS / f"{self.prop}-broken-{h}.json"
             path.write_text(json.dumps({"property": self.prop, "broken_obligations": self.broken,
@@ -413,11 +414,39 @@ class Ctx:
         if problems:
             print("EVIDENCE-INVALID:", problems, file=sys.stderr)
             rc = rc or 2
-        print(f"{self.prop} {self.tier}: obligations {self.cov.get('discharged', 0)}/{self.cov.get('obligations', self.cov.get('obligations_total'))}, "
+        print(f"{self.prop} {self.tier}: obligations {self.cov.get('discharged', self.cov.get('obligations_discharged', 0))}/{self.cov.get('obligations', self.cov.get('obligations_total'))}, "
               f"evaluations {self.cov['evaluations']}, distinct {self.cov['distinct_nontrivial']}, "
               f"known {len(self.known_hit)}, violations {len(self.violations)}, {wall:.1f}s")
         self.cleanup()
         return rc
+
+
+def replay_by_rerun(prop: str, run: Callable[["Ctx"], None], data: dict) -> int:
+    """Executable replay for the scheduled / generated checks: every random choice derives from (seed, tier), so re-running
+    the property's check with the recorded seed and tier regenerates the recorded case; reports whether the recorded
+    signature (or broken obligation) shows up again on the current tree.  Writes no evidence and no replay file."""
+    print("recorded:", data.get("what") or data.get("broken_obligations"))
+    print("input   :", json.dumps(data.get("replay"), default=str)[:2000])
+    ctx = Ctx(prop, data.get("tier", "quick"), int(data.get("seed", 0) or 0))
+    try:
+        run(ctx)
+    finally:
+        ctx.cleanup()
+    sig = data.get("signature")
+    if sig is not None:
+        hit = [v for v in ctx.violations if v["signature"] == sig] + [w for k, w in ctx.known_hit if k["signature"] == sig]
+        if hit:
+            print("reproduced:", hit[0]["what"] if isinstance(hit[0], dict) else hit[0])
+            return 1
+        print(f"not reproduced on this tree (seed {ctx.seed}, tier {ctx.tier}): signature {sig} did not occur")
+        return 0
+    names = {b.split(":")[0] for b in data.get("broken_obligations", [])}
+    again = [b for b in ctx.broken if b.split(":")[0] in names]
+    for b in again[:10]:
+        print("still broken:", b)
+    if not again:
+        print("not reproduced on this tree: every recorded obligation checks again")
+    return 1 if again else 0
 
 
 def validate_evidence(ev: dict) -> list[str]:
